@@ -462,6 +462,14 @@ def main(root, argv):
         ctx.oblige("correspondence could run", False, "harness or driver failed to build")
         if not vh:
             diffs.append(dict(kind="BUILD", what="model:harness-build-failed", expected="", line="cargo build failed against /repo"))
+    rel = spec.get("relevant")
+    if rel:
+        rr = re.compile(rel)
+        other = [d for d in diffs if not (rr.search(d["what"]) or rr.search(d["kind"]))]
+        diffs = [d for d in diffs if rr.search(d["what"]) or rr.search(d["kind"])]
+        if other:
+            ctx.notes.append("disagreements about OTHER properties seen in shared observations (reported by their own checks): %d, e.g. %s"
+                             % (len(other), other[0]["what"]))
     unknown = classify(ctx, diffs, known)
     spec_diffs = [d for d in unknown if d["what"].startswith("spec:")]
     model_diffs = [d for d in unknown if not d["what"].startswith("spec:")]
